@@ -72,4 +72,27 @@ def faultLine (rs : RibSt) (ts : List Tok) : RibSt :=
   let rs := if g "resetrace" == "hang" then rs.monfail "c14" s!"{desc} Reset running concurrently with AwaitConverged blocked (deadlock)" else rs
   if rs.monfails == 0 then rs.covr "cf.ok" else rs
 
+/-- compliance-suite lines (C19): a conformant server must pass every test in every position; a
+server that breaks one requirement must be flagged by the tests written for that requirement -/
+def complianceLine (rs : RibSt) (ts : List Tok) : RibSt :=
+  let rs := { rs with line := rs.line + 1, diverged := true }
+  match ts with
+  | [] => rs
+  | cmd :: args =>
+    let c := tokStr cmd
+    if c = "cp.config" then rs.covr "cp.config"
+    else if c = "cp.test" then
+      match beforeArrow args, afterArrow args with
+      | [pos, _, name, prev], [v, msg] =>
+        if tokStr v == "pass" then rs.covr "cp.pass"
+        else rs.monfail "c19" s!"compliance test '{(strOf name).getD ""}' fails against the conformant server at position {tokStr pos} of the permutation (after '{(strOf prev).getD ""}'): {(strOf msg).getD ""}"
+      | _, _ => rs.emit s!"PARSE-ERROR trace={rs.name} line={rs.line} cmd={c}"
+    else if c = "cp.fault" then
+      match beforeArrow args, afterArrow args with
+      | [fault, name], [v, _] =>
+        if tokStr v == "fail" then rs.covr "cp.fault.flagged"
+        else rs.monfail "c19" s!"compliance test '{(strOf name).getD ""}' passes against a server that {(strOf fault).getD ""}"
+      | _, _ => rs.emit s!"PARSE-ERROR trace={rs.name} line={rs.line} cmd={c}"
+    else rs.emit s!"PARSE-ERROR trace={rs.name} line={rs.line} cmd={c}"
+
 end Gribi.Drv
